@@ -218,6 +218,8 @@ def observe(M, net, engine, step_kwargs, symvals: SymVals = None):
                 e[k] = fill(e[k])
     if desc.get("node_off"):
         desc["node_off"] = {k: fill(v) for k, v in desc["node_off"].items()}
+    if desc.get("node_block"):
+        desc["node_block"] = {k: fill(v) for k, v in desc["node_block"].items()}
     vals, nxt = {}, {}
     for eid, vs in valslots.items():
         d = {}
